@@ -4,12 +4,15 @@ import (
 	"context"
 	"encoding/json"
 	"fmt"
+	"hash/fnv"
 	"sort"
 	"strings"
+	"sync"
 	"testing"
 
 	"github.com/Comcast/sheens/core"
 	"github.com/Comcast/sheens/crew"
+	"github.com/Comcast/sheens/interpreters"
 	"github.com/Comcast/sheens/match"
 	"github.com/Comcast/sheens/sio"
 	"pgregory.net/rapid"
@@ -32,7 +35,14 @@ import (
 func counterSpec(ver int) *core.Spec {
 	label := fmt.Sprintf("v%d", ver)
 	slim := false
-	if ver > 20 {
+	handling := false
+	if ver > 30 {
+		// versions 31, 32: spec-level options matter - an increment of 3
+		// makes the action fail, and the specification routes action
+		// errors through its branches (actionErrorBranches)
+		ver -= 30
+		handling = true
+	} else if ver > 20 {
 		ver -= 20
 		slim = true
 	} else if ver > 10 {
@@ -54,6 +64,19 @@ return {count: c, ver: %d};
 		"parked": {Branches: &core.Branches{Type: "message", Branches: []*core.Branch{
 			{Pattern: map[string]interface{}{"unpark": true}, Target: "start"}}}},
 	}}
+	if handling {
+		spec.ActionErrorBranches = true
+		spec.Doc = "routes action errors through its branches"
+		add := spec.Nodes["add"]
+		add.ActionSource.Source = `if (_.bindings["?n"] === 3) { throw new Error("three"); }` + add.ActionSource.Source.(string)
+		add.Branches.Branches = []*core.Branch{
+			{Pattern: map[string]interface{}{"actionError": "?err", "count": "?c"}, Target: "failed"},
+			{Pattern: map[string]interface{}{"actionError": "?err"}, Target: "failed"},
+			{Target: "start"}}
+		spec.Nodes["failed"] = &core.Node{
+			ActionSource: &core.ActionSource{Interpreter: "ecmascript", Source: `var c = _.bindings["?c"]; return (typeof c === 'number') ? {count: c, failures: true} : {failures: true};`},
+			Branches:     &core.Branches{Type: "bindings", Branches: []*core.Branch{{Target: "start"}}}}
+	}
 	if slim {
 		delete(spec.Nodes, "parked")
 		spec.Nodes["start"].Branches.Branches = spec.Nodes["start"].Branches.Branches[:1]
@@ -89,7 +112,7 @@ func genCOp(t *rapid.T, label string, existingStateOK, recreateOK bool) COp {
 		kinds = append(kinds, "setState", "setState")
 	}
 	op := COp{Kind: rapid.SampledFrom(kinds).Draw(t, label+".kind"), Mid: rapid.SampledFrom(c15mids).Draw(t, label+".mid")}
-	op.Ver = rapid.SampledFrom([]int{1, 2, 3, 1, 2, 3, 11, 12, 13, 21, 22}).Draw(t, label+".ver")
+	op.Ver = rapid.SampledFrom([]int{1, 2, 3, 1, 2, 3, 11, 12, 13, 21, 22, 31, 32}).Draw(t, label+".ver")
 	if op.Kind == "setState" || (op.Kind == "create" && rapid.Bool().Draw(t, label+".ws")) {
 		op.State = true
 		op.Count = float64(rapid.IntRange(0, 50).Draw(t, label+".count"))
@@ -239,10 +262,47 @@ func (s shadowStore) fold(changed map[string]*sio.Changed) {
 	}
 }
 
+var (
+	digestMu sync.Mutex
+	digests  = map[string]string{}
+)
+
+// sourceDigest identifies the machine an inline specification describes:
+// a digest of the specification's JSON form after compilation (compiling
+// fills in defaults - the error node, branching types - so a compiled
+// specification and the text it was compiled from get the same digest).
+func sourceDigest(spec *core.Spec) string {
+	js, err := json.Marshal(spec)
+	if err != nil {
+		return "unserialisable"
+	}
+	digestMu.Lock()
+	defer digestMu.Unlock()
+	if d, have := digests[string(js)]; have {
+		return d
+	}
+	d := "uncompilable"
+	var cp core.Spec
+	if json.Unmarshal(js, &cp) == nil && cp.Compile(context.Background(), interpreters.Standard(), true) == nil {
+		if js2, err := json.Marshal(&cp); err == nil {
+			var x interface{}
+			if json.Unmarshal(js2, &x) == nil {
+				h := fnv.New32a()
+				h.Write([]byte(jsongen.Canon(x)))
+				d = fmt.Sprintf("%08x", h.Sum32())
+			}
+		}
+	}
+	digests[string(js)] = d
+	return d
+}
+
 func machineView(node string, bs map[string]interface{}, src *crew.SpecSource) string {
 	ver := "none"
 	if src != nil && src.Inline != nil {
 		ver = src.Inline.Name + "/" + src.Inline.Version
+		// ... and everything else the specification source says
+		ver += "#" + sourceDigest(src.Inline)
 	}
 	if node == "" {
 		node = "start"
